@@ -448,4 +448,74 @@ End Pools.
 Lemma backed_empty : Backed [].
 Proof. intros k m H. unfold abs_idx, bucket_bytes in H. cbn in H. discriminate. Qed.
 
+(* ---------- the writers never create a symbolic link ---------- *)
+Definition nosym_cmd (f : fs) (c : sys) : Prop :=
+  match c with
+  | MkdirAll _ | CreateTmp | WriteAppend _ _ | CreateIfMissing _ | Append _ _ => True
+  | Rename s _ => exists b, lookup f s = Some (File b)
+  | _ => False
+  end.
+
+Lemma file_ns d t' : File d <> Symlink t'.
+Proof. discriminate. Qed.
+
+Lemma upd_sym f a n l t : (forall t', n <> Symlink t') -> lookup (update f a n) l = Some (Symlink t) -> lookup f l = Some (Symlink t).
+Proof. intros Hn H. rewrite lookup_update in H. destruct (loc_eqb a l); [inversion H as [E]; exfalso; exact (Hn t E)|exact H]. Qed.
+
+Lemma nosym_exec c f l t : nosym_cmd f c -> lookup (snd (exec c f)) l = Some (Symlink t) -> lookup f l = Some (Symlink t).
+Proof.
+  destruct c as [p| |l0 n|l0 off s0|l0 n|l0 s0|src dst|l0|l0|l0 d0|l0|l0|src dst|t0 dst|src dst|src dst|p|p|p]; cbn [nosym_cmd]; intros Hc H; try contradiction.
+  - rewrite exec_mkdirall in H. destruct (mkdirs_any f (prefixes p) l) as [E|E]; rewrite E in H; [exact H|discriminate].
+  - unfold exec in H. destruct (is_dir f tmp_dir); cbn [snd] in H; [|exact H]. apply (upd_sym _ _ _ _ _ (file_ns _) H).
+  - unfold exec in H. destruct (lookup f l0) as [[d| |t1]|]; cbn [snd] in H; try exact H. apply (upd_sym _ _ _ _ _ (file_ns _) H).
+  - destruct Hc as [b Hb]. unfold exec in H. rewrite Hb in H. destruct (parent_ok f dst); [|exact H].
+    assert (lookup (update (remove f src) dst (File b)) l = Some (Symlink t) -> lookup f l = Some (Symlink t)) as Hu.
+    { intros H1. apply (upd_sym _ _ _ _ _ (file_ns _)) in H1.
+      destruct (loc_eq_dec src l) as [<-|Hne]; [rewrite lookup_remove_eq in H1; discriminate|rewrite lookup_remove_neq in H1 by exact Hne; exact H1]. }
+    destruct (lookup f dst) as [[d| |t1]|]; cbn [snd] in H; try exact H; apply Hu; exact H.
+  - unfold exec in H. destruct (lookup f l0) as [[d| |t1]|]; cbn [snd] in H; try exact H.
+    destruct (parent_ok f l0); cbn [snd] in H; [|exact H]. apply (upd_sym _ _ _ _ _ (file_ns _) H).
+  - unfold exec in H. destruct (lookup f l0) as [[d| |t1]|]; cbn [snd] in H; try exact H. apply (upd_sym _ _ _ _ _ (file_ns _) H).
+Qed.
+
+Lemma pstep_nosym_cmd ws f0 pl f pl' f' :
+  PInvW hash ws f0 (pl, f) -> pstep (pl, f) (pl', f') -> exists c, nosym_cmd f c /\ f' = snd (exec c f).
+Proof.
+  intros Hinv Hstep. inversion Hstep as [pre c k post f1 E1 E2]. subst pl f1 pl'. clear Hstep.
+  exists c. split; [|reflexivity].
+  destruct Hinv as [done [owns [Hnd [Hlt [Hlen [Hlo [Hst [Hdist [Hi [Hc [Ht Hb]]]]]]]]]]].
+  set (i0 := List.length pre).
+  assert (i0 < List.length ws)%nat as Hi0 by (rewrite <- Hlen, app_length; cbn [List.length]; lia).
+  set (x := nth i0 ws dw).
+  pose proof (Hst i0 Hi0) as Hs0. fold x in Hs0. unfold i0 in Hs0 at 1. rewrite nth_mid in Hs0.
+  remember (Do c k) as p0 eqn:Ep0. remember (member i0 done) as fl eqn:Efl. remember (nth i0 owns None) as own0 eqn:Eown.
+  destruct Hs0 as [Hw|Hw Hd|n Hw Hl Hne|n Hw Hl|n Hw Hl Hd|Hcp|Hcp Hd|d Hcp Hd|Hcp].
+  - destruct (do_eq c k (A0 hash x) _ (eq_sym Ep0) (A0_head hash x)) as [-> Hk]. exact I.
+  - destruct (do_eq c k (A1 hash x) _ (eq_sym Ep0) (A1_head hash x)) as [-> Hk]. exact I.
+  - destruct (A2_data hash x n Hne) as [Hh Hn2].
+    destruct (do_eq c k (A2 hash x n) _ (eq_sym Ep0) Hh) as [-> Hk]. exact I.
+  - destruct (do_eq c k (B0' hash x n) _ (eq_sym Ep0) (B0'_head hash x n)) as [-> Hk]. exact I.
+  - destruct (do_eq c k (B1 hash x n) _ (eq_sym Ep0) (B1_head hash x n)) as [-> Hk]. exists (ws_data x). exact Hl.
+  - destruct (seq_prog_unfold (MkdirAll (parent (hb hash (x_hop hash x)))) (tl (hop_steps hash (x_hop hash x))) (x_res hash x)) as [k1 [E Hk1]].
+    assert (Do c k = Do (MkdirAll (parent (hb hash (x_hop hash x)))) k1) as Ed by (rewrite <- E; symmetry; exact Ep0).
+    remember (MkdirAll (parent (hb hash (x_hop hash x)))) as c1 eqn:Ec1. injection Ed as -> ->. subst c1. exact I.
+  - destruct (seq_prog_unfold (CreateIfMissing (InCache (hb hash (x_hop hash x)))) (tl (tl (hop_steps hash (x_hop hash x)))) (x_res hash x)) as [k1 [E Hk1]].
+    assert (Do c k = Do (CreateIfMissing (InCache (hb hash (x_hop hash x)))) k1) as Ed by (rewrite <- E; symmetry; exact Ep0).
+    remember (CreateIfMissing (InCache (hb hash (x_hop hash x)))) as c1 eqn:Ec1. injection Ed as -> ->. subst c1. exact I.
+  - destruct (seq_prog_unfold (Append (InCache (hb hash (x_hop hash x))) (record_bytes hash (hop_rec (x_hop hash x)))) [] (x_res hash x)) as [k1 [E Hk1]].
+    assert (Do c k = Do (Append (InCache (hb hash (x_hop hash x))) (record_bytes hash (hop_rec (x_hop hash x)))) k1) as Ed by (rewrite <- E; symmetry; exact Ep0).
+    remember (Append (InCache (hb hash (x_hop hash x))) (record_bytes hash (hop_rec (x_hop hash x)))) as c1 eqn:Ec1. injection Ed as -> ->. subst c1. exact I.
+  - discriminate.
+Qed.
+
+(* no symbolic link anywhere in the content area: true of every cache that ordinary writes produce, kept by the pool *)
+Definition NoSymC (f : fs) : Prop := forall p t, lookup f (InCache (content_dir :: p)) <> Some (Symlink t).
+
+Lemma nosym_step ws f0 pl f pl' f' :
+  PInvW hash ws f0 (pl, f) -> NoSymC f -> pstep (pl, f) (pl', f') -> NoSymC f'.
+Proof.
+  intros Hinv Hn Hs p t H. destruct (pstep_nosym_cmd ws f0 pl f pl' f' Hinv Hs) as [c [Hc ->]].
+  exact (Hn p t (nosym_exec c f _ t Hc H)).
+Qed.
+
 End CR.
